@@ -539,3 +539,47 @@ def ob_restart_any_write(kind: int, k: int) -> bool:
     if again["errors"] or again["loop_exceptions"]:
         return False
     return again["status"] == "completed" and again["result"] == first["result"]
+
+
+# ------------------------------------------------------------------------------------------------ long logs on the SQLite store
+# context_from_ticks replays what store.stream_ticks() yields; the SQLite store reads the log page by page.  A restart of a run with a long
+# log must be handed every persisted tick exactly once, in order (a tick read twice is a step result applied twice).
+from vlib.h_stores import TmpDir as _TmpDir, pick_int as _pick_int, untraced as _untraced13  # noqa: E402
+
+from llama_agents.server._store.sqlite import sqlite_workflow_store as _sws13  # noqa: E402
+
+_PAGE13 = _sws13._TICK_PAGE_SIZE
+_NT13 = [1, _PAGE13 - 1, _PAGE13, _PAGE13 + 1, 2 * _PAGE13 - 1, 2 * _PAGE13, 2 * _PAGE13 + 1]
+
+
+@obligation(quick=150, thorough=300,
+            what="SQLite store: a persisted tick log of n ticks (n around the page size of stream_ticks: 1, P-1, P, P+1, 2P-1, 2P, 2P+1) read back the "
+                 "way a restart reads it (stream_ticks) — and by the real PersistenceDecorator-side reader get_ticks — is the persisted log: "
+                 "every tick once, in order",
+            bounds={"log length": "7 values around 0, P, 2P (P = _TICK_PAGE_SIZE)"})
+def ob_sqlite_long_log_read_back(sel: int) -> bool:
+    """
+    pre: 0 <= sel < len(_NT13)
+    post: _
+    """
+    n = _NT13[_pick_int(sel, 0, len(_NT13) - 1)]
+    with _untraced13():
+        import asyncio
+        import os
+
+        with _TmpDir() as d:
+            store = _sws13.SqliteWorkflowStore(os.path.join(d, "s.db"))
+
+            async def main():
+                for i in range(n):
+                    await store.append_tick("run1", {"type": "t", "i": i})
+                streamed = [t.tick_data["i"] async for t in store.stream_ticks("run1")]
+                got = [t.tick_data["i"] for t in await store.get_ticks("run1")]
+                return streamed, got
+
+            loop = asyncio.new_event_loop()
+            try:
+                streamed, got = loop.run_until_complete(main())
+            finally:
+                loop.close()
+        return streamed == list(range(n)) and got == list(range(n))
